@@ -1,6 +1,6 @@
 (** Proofs for C07: stored recordings round-trip through the three cassette models. *)
 From Playback Require Import Base.Str Base.StrFacts Values.PyVal Values.SortFacts Values.Codec Values.CodecFacts
-  Cassette.Bucket Cassette.BucketFacts Cassette.S3Store Cassette.S3StoreFacts Cassette.Stores.
+  Values.JsonWf Values.JsonFacts Cassette.Bucket Cassette.BucketFacts Cassette.S3Store Cassette.S3StoreFacts Cassette.Stores.
 From Coq Require Import Permutation Lia.
 Open Scope list_scope.
 Local Arguments reserved : simpl never.
@@ -131,6 +131,12 @@ Proof.
   rewrite R1, R2, R3, R4, S1, S2, S3, S4, Wd, Wm. cbn [wf negb andb]. rewrite Wi. reflexivity.
 Qed.
 
+Lemma leaves_rec_obj r : rec_leaves_ok r = true -> leaves_ok (rec_obj r) = true.
+Proof.
+  unfold rec_leaves_ok, rec_obj. intros L. apply andb_true_iff in L. destruct L as [Ld Lm].
+  cbn [leaves_ok forallb fst snd] in *. rewrite Ld, Lm. reflexivity.
+Qed.
+
 Lemma canon_rec_obj r :
   canon (rec_obj r) =
   VObj MEMREC [(U"_closed", VBool (r_closed r)); (U"id", VStr (r_id r));
@@ -142,7 +148,8 @@ Section Roundtrip.
   Variable qp_dec : str -> list N.
   Variable loads : str -> option json.
   Hypothesis qp_roundtrip : forall b, qp_dec (qp b) = b.
-  Hypothesis loads_dumps : forall j, loads (dumps j) = Some j.
+  Hypothesis loads_dumps : forall j, jwf j = true -> loads (dumps j) = Some j.
+  Hypothesis qp_ascii : forall b, is_bytes b = true -> str_ok (qp b) = true.
 
   Notation enc := (enc qp).
   Notation dec := (dec qp_dec loads).
@@ -157,9 +164,10 @@ Section Roundtrip.
   Notation file_saves := (file_saves qp).
 
   Lemma rebuild_enc r :
-    rec_wf r = true -> exists t, enc (rec_obj r) = Some t /\ rebuild t = Ans (fetched_of r).
+    rec_wf r = true -> rec_leaves_ok r = true -> exists t, enc (rec_obj r) = Some t /\ rebuild t = Ans (fetched_of r).
   Proof.
-    intros W. destruct (dec_enc qp qp_dec loads qp_roundtrip loads_dumps _ (wf_rec_obj r W)) as [t [E D]].
+    intros W L.
+    destruct (dec_enc qp qp_dec loads qp_roundtrip loads_dumps qp_ascii _ (wf_rec_obj r W) (leaves_rec_obj r L)) as [t [E D]].
     exists t. split; [exact E|]. unfold Stores.rebuild. rewrite D, canon_rec_obj.
     change (assoc (U"id") _) with (Some (VStr (r_id r))).
     change (assoc (U"recording_data") _) with (Some (canon (VDict (r_data r)))).
@@ -182,12 +190,12 @@ Section Roundtrip.
   Qed.
 
   Theorem roundtrip_mem r s rs :
-    rec_wf r = true -> Forall (fun r' => r_id r' <> r_id r) rs ->
+    rec_wf r = true -> rec_leaves_ok r = true -> Forall (fun r' => r_id r' <> r_id r) rs ->
     snd (mem_save r s) = Ans tt /\
     mem_get (r_id r) (mem_saves rs (fst (mem_save r s))) = Ans (fetched_of r) /\
     mem_get_meta (r_id r) (mem_saves rs (fst (mem_save r s))) = Ans (f_meta (fetched_of r)).
   Proof.
-    intros W F. destruct (rebuild_enc r W) as [t [E R]].
+    intros W L F. destruct (rebuild_enc r W L) as [t [E R]].
     assert (G : mem_get (r_id r) (mem_saves rs (fst (mem_save r s))) = Ans (fetched_of r)).
     { rewrite mem_saves_other by exact F. unfold Stores.mem_get, Stores.mem_save. rewrite E. cbn [fst].
       rewrite assoc_dict_set_same. exact R. }
@@ -219,12 +227,12 @@ Section Roundtrip.
   Qed.
 
   Theorem roundtrip_file r d rs :
-    rec_wf r = true -> Forall (fun r' => fpath (r_id r') <> fpath (r_id r)) rs ->
+    rec_wf r = true -> rec_leaves_ok r = true -> Forall (fun r' => fpath (r_id r') <> fpath (r_id r)) rs ->
     snd (file_save r d) = Ans tt /\
     file_get (r_id r) (file_saves rs (fst (file_save r d))) = Ans (fetched_of r) /\
     file_get_meta (r_id r) (file_saves rs (fst (file_save r d))) = Ans (f_meta (fetched_of r)).
   Proof.
-    intros W F. destruct (rebuild_enc r W) as [t [E R]].
+    intros W L F. destruct (rebuild_enc r W L) as [t [E R]].
     assert (G : file_get (r_id r) (file_saves rs (fst (file_save r d))) = Ans (fetched_of r)).
     { rewrite file_saves_other by exact F. unfold Stores.file_get, Stores.file_save. rewrite E. cbn [fst].
       rewrite assoc_dict_set_same. exact R. }
@@ -276,7 +284,8 @@ Section S3Roundtrip.
   Variable compress : bytes -> bytes.
   Variable decompress : bytes -> option bytes.
   Hypothesis qp_roundtrip : forall b, qp_dec (qp b) = b.
-  Hypothesis loads_dumps : forall j, loads (dumps j) = Some j.
+  Hypothesis loads_dumps : forall j, jwf j = true -> loads (dumps j) = Some j.
+  Hypothesis qp_ascii : forall b, is_bytes b = true -> str_ok (qp b) = true.
   Hypothesis decompress_compress : forall b, decompress (compress b) = Some b.
 
   Notation s3_save := (s3_save qp compress).
@@ -297,14 +306,14 @@ Section S3Roundtrip.
     should_sample s = true /\ match s with NoCalc => True | Calc _ _ => id_category (r_id r) <> None end.
 
   Lemma save_plan_full c r s :
-    rec_wf r = true -> c_read_only c = false -> plan_ok r s ->
+    rec_wf r = true -> rec_leaves_ok r = true -> c_read_only c = false -> plan_ok r s ->
     exists t mt, dec t = Some (canon (full_value r)) /\ dec mt = Some (canon (VDict (r_meta r))) /\
       save_plan c r s = Ans [(full_key (np c) (r_id r), compress t); (meta_key (np c) (r_id r), mt)] /\
       plan_complete qp r s = true.
   Proof.
-    intros W R [S P].
-    destruct (full_body_ok qp qp_dec loads compress qp_roundtrip loads_dumps r W) as [t [FB DT]].
-    destruct (meta_body_ok qp qp_dec loads qp_roundtrip loads_dumps r W) as [mt [MB DM]].
+    intros W L R [S P].
+    destruct (full_body_ok qp qp_dec loads compress qp_roundtrip loads_dumps qp_ascii r W L) as [t [FB DT]].
+    destruct (meta_body_ok qp qp_dec loads qp_roundtrip loads_dumps qp_ascii r W L) as [mt [MB DM]].
     exists t, mt. split; [exact DT|]. split; [exact DM|]. split.
     - unfold S3Store.save_plan. rewrite R, FB, S, MB.
       destruct s as [|ratio draw]; [reflexivity|]. destruct (id_category (r_id r)); [reflexivity|congruence].
@@ -316,12 +325,12 @@ Section S3Roundtrip.
   Proof. unfold full_value. cbn [canon]. rewrite map_snd_dict_set. reflexivity. Qed.
 
   Lemma get_after_save c r s st :
-    rec_wf r = true -> c_read_only c = false -> plan_ok r s ->
+    rec_wf r = true -> rec_leaves_ok r = true -> c_read_only c = false -> plan_ok r s ->
     snd (s3_save c r s st) = Ans tt /\
     s3_get c (r_id r) (objs (fst (s3_save c r s st))) = Ans (s3_fetched_of r) /\
     s3_get_meta c (r_id r) (objs (fst (s3_save c r s st))) = Ans (canon (VDict (r_meta r))).
   Proof.
-    intros W R P. destruct (save_plan_full c r s W R P) as [t [mt [DT [DM [PL PC]]]]].
+    intros W L0 R P. destruct (save_plan_full c r s W L0 R P) as [t [mt [DT [DM [PL PC]]]]].
     unfold S3Store.s3_save. rewrite PL, PC. cbn [fst snd apply_puts st_put objs].
     split; [reflexivity|].
     assert (NE : meta_key (np c) (r_id r) <> full_key (np c) (r_id r))
@@ -366,13 +375,13 @@ Section S3Roundtrip.
   Qed.
 
   Theorem roundtrip_s3_general c r s st rs :
-    rec_wf r = true -> c_read_only c = false -> plan_ok r s ->
+    rec_wf r = true -> rec_leaves_ok r = true -> c_read_only c = false -> plan_ok r s ->
     Forall (fun rs' => r_id (fst rs') <> r_id r) rs ->
     snd (s3_save c r s st) = Ans tt /\
     s3_get c (r_id r) (objs (s3_saves c rs (fst (s3_save c r s st)))) = Ans (s3_fetched_of r) /\
     s3_get_meta c (r_id r) (objs (s3_saves c rs (fst (s3_save c r s st)))) = Ans (canon (VDict (r_meta r))).
   Proof.
-    intros W R P F. destruct (get_after_save c r s st W R P) as [S [G M]].
+    intros W L R P F. destruct (get_after_save c r s st W L R P) as [S [G M]].
     destruct (saves_other_keys c rs (r_id r) (fst (s3_save c r s st)) F) as [A B].
     split; [exact S|]. split.
     - unfold S3Store.s3_get in *. rewrite A. exact G.
@@ -380,13 +389,13 @@ Section S3Roundtrip.
   Qed.
 
   Theorem roundtrip_s3 c r s st rs :
-    rec_wf r = true -> assoc META (r_data r) = None -> c_read_only c = false -> plan_ok r s ->
+    rec_wf r = true -> rec_leaves_ok r = true -> assoc META (r_data r) = None -> c_read_only c = false -> plan_ok r s ->
     Forall (fun rs' => r_id (fst rs') <> r_id r) rs ->
     snd (s3_save c r s st) = Ans tt /\
     s3_get c (r_id r) (objs (s3_saves c rs (fst (s3_save c r s st)))) = Ans (fetched_of r) /\
     s3_get_meta c (r_id r) (objs (s3_saves c rs (fst (s3_save c r s st)))) = Ans (f_meta (fetched_of r)).
   Proof.
-    intros W A R P F. rewrite <- (s3_fetched_plain r A). apply roundtrip_s3_general; assumption.
+    intros W L A R P F. rewrite <- (s3_fetched_plain r A). apply roundtrip_s3_general; assumption.
   Qed.
 
   Theorem unknown_s3 c id st rs :
@@ -404,13 +413,14 @@ Section S3Roundtrip.
 
   Theorem s3_reserved_key_lost c st :
     c_read_only c = false ->
-    rec_wf reserved_witness = true /\
+    rec_wf reserved_witness = true /\ rec_leaves_ok reserved_witness = true /\
     exists f, s3_get c (r_id reserved_witness) (objs (fst (s3_save c reserved_witness NoCalc st))) = Ans f /\
               f_data f = VDict [(U"k", VInt 2)] /\ f_data f <> f_data (fetched_of reserved_witness).
   Proof.
-    intros R. split; [vm_compute; reflexivity|].
+    intros R. split; [vm_compute; reflexivity|]. split; [vm_compute; reflexivity|].
     assert (W : rec_wf reserved_witness = true) by (vm_compute; reflexivity).
-    destruct (get_after_save c reserved_witness NoCalc st W R) as [_ [G _]]; [split; [reflexivity|exact I]|].
+    assert (L : rec_leaves_ok reserved_witness = true) by (vm_compute; reflexivity).
+    destruct (get_after_save c reserved_witness NoCalc st W L R) as [_ [G _]]; [split; [reflexivity|exact I]|].
     exists (s3_fetched_of reserved_witness). split; [exact G|]. split; [vm_compute; reflexivity|].
     vm_compute. discriminate.
   Qed.
@@ -426,24 +436,25 @@ Section Collision.
   Variable qp_dec : str -> list N.
   Variable loads : str -> option json.
   Hypothesis qp_roundtrip : forall b, qp_dec (qp b) = b.
-  Hypothesis loads_dumps : forall j, loads (dumps j) = Some j.
+  Hypothesis loads_dumps : forall j, jwf j = true -> loads (dumps j) = Some j.
+  Hypothesis qp_ascii : forall b, is_bytes b = true -> str_ok (qp b) = true.
 
   Lemma file_get_path a b d : fpath a = fpath b -> file_get qp_dec loads a d = file_get qp_dec loads b d.
   Proof. unfold file_get. intros ->. reflexivity. Qed.
 
   Theorem path_collision :
     r_id collide_a <> r_id collide_b /\ fpath (r_id collide_a) = fpath (r_id collide_b) /\
-    rec_wf collide_a = true /\ rec_wf collide_b = true /\
+    rec_wf collide_a = true /\ rec_wf collide_b = true /\ rec_leaves_ok collide_b = true /\
     forall d, file_get qp_dec loads (r_id collide_a) (fst (file_save qp collide_b (fst (file_save qp collide_a d))))
               = Ans (fetched_of collide_b) /\
               fetched_of collide_b <> fetched_of collide_a.
   Proof.
     split; [vm_compute; discriminate|]. split; [vm_compute; reflexivity|].
-    split; [vm_compute; reflexivity|]. split; [vm_compute; reflexivity|].
+    split; [vm_compute; reflexivity|]. split; [vm_compute; reflexivity|]. split; [vm_compute; reflexivity|].
     intros d. split; [|vm_compute; discriminate].
     rewrite (file_get_path (r_id collide_a) (r_id collide_b)) by (vm_compute; reflexivity).
-    destruct (roundtrip_file qp qp_dec loads qp_roundtrip loads_dumps collide_b (fst (file_save qp collide_a d)) [])
-      as [_ [G _]]; [vm_compute; reflexivity|constructor|exact G].
+    destruct (roundtrip_file qp qp_dec loads qp_roundtrip loads_dumps qp_ascii collide_b (fst (file_save qp collide_a d)) [])
+      as [_ [G _]]; [vm_compute; reflexivity|vm_compute; reflexivity|constructor|exact G].
   Qed.
 End Collision.
 
